@@ -95,7 +95,7 @@ func scenC02(r *Run, job *Job) {
 	if profile == "adversary" {
 		for i := range races {
 			if modes[i] == "ok" && t.Chance(1, 4) {
-				races[i] = []string{"response", "error"}[t.Draw(2)]
+				races[i] = []string{"response", "error", "slow-error", "slow-response"}[t.Draw(4)]
 				// where the duplicate's handler is descheduled ("" = nowhere: it is answered before the real one starts)
 				raceSites[i] = []string{"", "GetCurrentInvokeID", "registrationServiceImpl).GetRuntime", "core.(*Runtime).", "SetState", "GetState", "Server).SendResponse", "Server).SendErrorResponse", "ResponseSent", "setRuntimeState"}[t.Draw(10)]
 			}
@@ -224,7 +224,7 @@ func scenC02(r *Run, job *Job) {
 		switch modes[i] {
 		case "ok":
 			want := []byte(fmt.Sprintf("resp-%d:", inv.N) + string(inv.Payload))
-			r.Check((st == 200 || races[i] == "error") && bytes.Equal(body, want), "C02.effect-on-caller", "invocation %d (ok): %d %s", inv.N, st, summarize(body))
+			r.Check((st == 200 || strings.Contains(races[i], "error")) && (bytes.Equal(body, want) || strings.HasPrefix(races[i], "slow") && bytes.HasPrefix(body, want)), "C02.effect-on-caller", "invocation %d (ok): %d %s", inv.N, st, summarize(body))
 		case "error":
 			r.Check(bytes.Equal(body, []byte(fmt.Sprintf("ERR-%d", inv.N))), "C02.effect-on-caller", "invocation %d (error): %d %s", inv.N, st, summarize(body))
 		case "stall":
